@@ -224,8 +224,12 @@ def run_check(prop: str, tier: str, seed: int, replay: str | None = None) -> int
             "wall_s": round(wall, 2),
             "violations": len(new),
         }
-        os.makedirs(os.path.join(VERIF_DIR, "evidence"), exist_ok=True)
-        with open(os.path.join(VERIF_DIR, "evidence", f"{prop}.json"), "w") as f:
+        # evidence/ describes runs against /repo itself; a run pointed at another source tree (VERIF_REPO: scratch copies with a
+        # seeded change) leaves it alone and writes under the git-ignored .work/ instead
+        evdir = "evidence" if os.path.realpath(os.environ.get("VERIF_REPO", "/repo")) == "/repo" else os.path.join(".work", "evidence-other-tree")
+        ev["source_tree"] = os.path.realpath(os.environ.get("VERIF_REPO", "/repo"))
+        os.makedirs(os.path.join(VERIF_DIR, evdir), exist_ok=True)
+        with open(os.path.join(VERIF_DIR, evdir, f"{prop}.json"), "w") as f:
             json.dump(ev, f, indent=1, default=str)
 
     print(f"[{prop}] tier={tier} seed={seed} shards={len(shards)} evaluations={total['evaluations']} "
